@@ -95,13 +95,72 @@ def run(vc):
             p.prove(f"init[{mode}]:previous-result-or-flat", val == z3.If(prev.nan, z3.RealVal(flat), to_z(prev.v, R)), meta=dict(part="init"))
             p.prove(f"init[{mode}]:result-table-untouched", not res.writes, meta=dict(part="init"))
         vc.explore(f"get_voltage_init_vector[{mode}]", h_init, max_paths=40)
+    run_lookup_reset(vc)
 
 
 def classify(ob, model):
     return ob.meta.get("part", "")
 
 
+def run_lookup_reset(vc):
+    """_powerflow (driver of runpp and rundcpp): whatever a previous calculation left in net._pd2ppc_lookups, the conversion (_pd2ppc) of this
+    calculation starts from lookups created in this call -- for AC and DC, from flat start and from previous results. (Parts of the
+    conversion only overwrite the entries they need, e.g. the ext_grid lookup only if an ext_grid is in service: a surviving entry of an
+    earlier network state would be used as if it were current.)"""
+    PF = "pandapower.powerflow"
+
+    class Stale:
+        """a lookup left behind by an earlier calculation"""
+        no_identity_merge = True
+
+    for ac in (True, False):
+        for init_results in (True, False):
+            def h(p, ac=ac, init_results=init_results):
+                old = {k: Stale() for k in ("bus", "bus_dc", "ext_grid", "gen", "branch", "branch_dc", "aux")}
+                load = pm.table("load", {"const_z_p_percent": R, "const_i_p_percent": R, "const_z_q_percent": R, "const_i_q_percent": R})
+                net = netmodel.Net({"_options": PDict({"ac": ac, "init_results": init_results, "algorithm": "nr", "voltage_depend_loads": False}),
+                                    "_pd2ppc_lookups": PDict(dict(old)), "load": load}, strict=False)
+                seen = []
+                me = p.it.modenv(PF)
+                for nm in ("_add_auxiliary_elements", "verify_results", "init_results", "_ppci_to_net"):
+                    me.vals[nm] = Native(lambda it, *a, **k: None, name=nm, pure=False)
+                me.vals["_run_pf_algorithm"] = Native(lambda it, *a, **k: Opaque("result"), name="_run_pf_algorithm")
+
+                def pd2ppc(it, n, **k):
+                    seen.append(n.fields.raw("_pd2ppc_lookups"))
+                    return Opaque("ppc"), Opaque("ppci")
+                me.vals["_pd2ppc"] = Native(pd2ppc, name="_pd2ppc", pure=False)
+                out = p.call(f"{PF}:_powerflow", net)
+                if out.raised:
+                    raise EngineError(f"_powerflow raised {out.exc!r}")
+                tag = f"_powerflow[ac={ac},init_results={init_results}]"
+                p.prove(f"{tag}: the network is converted exactly once", len(seen) == 1, meta=dict(part="lookup-reset"))
+                if len(seen) != 1:
+                    return
+                lk = seen[0]
+                vals = list(lk.e.values()) if isinstance(lk, PDict) else list(lk.values()) if isinstance(lk, dict) else None
+                fresh = vals is not None and not any(isinstance(v, Stale) or (isinstance(v, (list, tuple)) and any(isinstance(x, Stale) for x in v))
+                                                     for v in vals) and not any(isinstance(v, Stale) for v in _flatten(vals))
+                p.prove(f"{tag}: the conversion starts without any lookup of an earlier calculation", fresh, meta=dict(part="lookup-reset"),
+                        note="net._pd2ppc_lookups at the call of _pd2ppc holds no object that was there before the call")
+            vc.explore(f"_powerflow[ac={ac},init_results={init_results}]", h, max_paths=20)
+
+
+def _flatten(vals):
+    out = []
+    for v in vals:
+        if isinstance(v, (list, tuple)):
+            out += _flatten(list(v))
+        else:
+            out.append(v)
+    return out
+
+
 def replay(ob, model, finding=None):
+    if ob.meta.get("part") == "lookup-reset":
+        return {"script": f"# replay of {ob.id}\nfrom replaylib.history import main_lookups\nmain_lookups()\n",
+                "description": "all ext_grids switched off after a first calculation (a slack gen remains), then rundcpp / runpp(init='results') "
+                               "against fresh copies of the same state"}
     return {"script": f"# replay of {ob.id}\nfrom replaylib.history import main\nmain()\n",
             "description": "sequences of switch / in_service modifications and calculations on one net object against fresh copies of the final "
                            "state (impedance bus-bus switches opened after a run, init='results' after an island was reconnected)"}
